@@ -15,7 +15,10 @@
        inactive driver instead), and every handle the user still holds is closed, a held subscription without images.
    The life-cycle of the registrations is tracked with the automaton of C09Oracle (used here only to know which
    counters are alive and which handles are held; its verdicts are C09's business). *)
-Require Import V.Base.MachineInt V.Generated.GenConsts V.Model.Conductor V.Oracle.C09Oracle.
+Require Import V.Base.MachineInt.
+Require Import V.Generated.GenConsts.
+Require Import V.Model.Conductor.
+Require Import V.Oracle.C09Oracle.
 Open Scope Z_scope.
 
 Record wst := mkW {
